@@ -5,6 +5,7 @@ import (
 	"fmt"
 	"os"
 	"strings"
+	"time"
 
 	sdkmath "cosmossdk.io/math"
 	tmbytes "github.com/cometbft/cometbft/libs/bytes"
@@ -284,7 +285,7 @@ func (b *run) service() {
 		}
 		return y
 	}
-	qos := uint64(min64(p.MaxRequestTimeout, 10))
+	qos := uint64(min64(p.MaxRequestTimeout, 2))
 	timeout := min64(p.MaxRequestTimeout, 3)
 	dep := sdk.Coins{sdk.Coin{Denom: base, Amount: big}}
 	b.msg("define", &svctypes.MsgDefineService{Name: "svc", Description: "d", Author: a0, AuthorDescription: "a", Schemas: okSch})
@@ -311,7 +312,9 @@ func (b *run) service() {
 	b.msg("disable", &svctypes.MsgDisableServiceBinding{ServiceName: "svc", Provider: a1, Owner: a1})
 	b.msg("enable", &svctypes.MsgEnableServiceBinding{ServiceName: "svc", Provider: a1, Deposit: nil, Owner: a1})
 	b.msg("disable2", &svctypes.MsgDisableServiceBinding{ServiceName: "svc", Provider: a1, Owner: a1})
-	b.msg("refund_early", &svctypes.MsgRefundServiceDeposit{ServiceName: "svc", Provider: a1, Owner: a1})
+	// past the arbitration + complaint window of the default parameters (20 days)
+	b.ctx = hx.WithBlock(b.ctx, b.ctx.BlockHeight()+1, b.ctx.BlockTime().Add(21*24*time.Hour))
+	b.msg("refund_deposit", &svctypes.MsgRefundServiceDeposit{ServiceName: "svc", Provider: a1, Owner: a1})
 }
 
 // ---------------------------------------------------------------- token
